@@ -44,6 +44,12 @@ func Run(c *common.Ctx) error {
 	if err := streamedFrames(c, c.Rng.Fork()); err != nil {
 		return err
 	}
+	if err := dropRestartRecreate(c, c.Rng.Fork()); err != nil {
+		return err
+	}
+	if err := sweepInsideCommit(c, c.Rng.Fork()); err != nil {
+		return err
+	}
 	if err := confirmedOnly(c, c.Rng.Fork()); err != nil {
 		return err
 	}
